@@ -155,6 +155,17 @@ class Plain(Task):
             self.save_to_run_info(falsy)
         return {'n': n}
 
+class Fragile(Task):           # from its second run on the result cannot be stored (a set inside the mapping)
+    class Meta:
+        parameters = [Parameter('k')]
+    def run(self, k) -> dict:
+        n = _tick(self)
+        self.logger.info(f'tok {n} first')
+        self.save_to_run_info({'r': n, 'i': 0})
+        self.logger.info(f'tok {n} second')
+        self.save_to_run_info(f'rec {n}')
+        return {'n': n} if STATE.get('fragile_ok', True) else {'n': {n}}
+
 class Gen(Task):
     class Meta:
         parameters = [Parameter('k')]
@@ -211,6 +222,8 @@ class RunBodies(Suite):
             for k in (0, 1, 3):
                 for hist in ('once', 'forced', 'forced_twice', 'new_chain_forced'):
                     out.append(dict(shape=shape, k=k, hist=hist))
+        # a forced run whose value cannot be stored: the stored result, and the record, stay those of the earlier run
+        out += [dict(shape='fragile', k=0, hist=h) for h in ('forced_unsavable', 'unsavable_then_ok')]
         return out
 
     def run_impl(self, case):
@@ -223,10 +236,31 @@ class RunBodies(Suite):
             sys.modules[name] = m
             try:
                 exec(compile(BODY_SRC, name, 'exec'), m.__dict__)
-                cls = {'plain': ['Plain'], 'gen': ['Gen'], 'dirs': ['Dirs'], 'down': ['Plain', 'Gen', 'Down']}[case['shape']]
+                cls = {'plain': ['Plain'], 'gen': ['Gen'], 'dirs': ['Dirs'], 'down': ['Plain', 'Gen', 'Down'],
+                       'fragile': ['Fragile']}[case['shape']]
                 def chain():
                     return Config(Path('data'), name='c', data={'tasks': [f'{name}.{c}' for c in cls], 'k': case['k']}).chain()
-                tname = {'plain': 'plain', 'gen': 'gen', 'dirs': 'dirs', 'down': 'down'}[case['shape']]
+                tname = {'plain': 'plain', 'gen': 'gen', 'dirs': 'dirs', 'down': 'down', 'fragile': 'fragile'}[case['shape']]
+                if case['shape'] == 'fragile':
+                    ch = chain()
+                    first_value = ch[tname].value
+                    m.STATE['fragile_ok'] = False
+                    ch.force(tname)
+                    try:
+                        _ = ch[tname].value
+                        failed = None
+                    except Exception as e:
+                        failed = type(e).__name__
+                    stored_run = 1
+                    if case['hist'] == 'unsavable_then_ok':
+                        m.STATE['fragile_ok'] = True
+                        ch = chain()
+                        ch.force(tname)
+                        _ = ch[tname].value
+                        stored_run = m.STATE[tname]
+                    t = chain()[tname]
+                    return dict(fragile=True, failed=failed, stored_run=stored_run, value=t.value, records=(t.run_info or {}).get('log'),
+                                log=t.log, last=m.STATE[tname])
                 ch = chain()
                 def consume(t):
                     v = t.value
@@ -247,6 +281,16 @@ class RunBodies(Suite):
     def oracle(self, case, obs):
         if 'unexpected_exception' in obs:
             return f'unexpected exception {obs["unexpected_exception"]}: {obs["text"]}'
+        if obs.get('fragile'):
+            r = obs['stored_run']
+            if obs['failed'] is None:
+                return f'{case}: storing a mapping that holds a set did not fail'
+            if obs['value'] != {'n': r}:
+                return f'{case}: a new chain loads {obs["value"]}; the stored result is the one of run {r}'
+            if json.dumps(obs['records'], sort_keys=True) != json.dumps([{'r': r, 'i': 0}, f'rec {r}'], sort_keys=True):
+                return (f'{case}: the stored result is the one of run {r}, the run record holds {obs["records"]} '
+                        f'(a run whose value could not be stored left its record)')
+            return None
         n = obs['last']
         if case['shape'] == 'gen':
             want = ['before'] + [f'item {i}' for i in range(case['k'])] + ['after']
